@@ -17,13 +17,14 @@ use specs::world::EntitiesRes;
 use std::sync::atomic::{AtomicI32, AtomicUsize, Ordering};
 use std::sync::{Arc, Mutex};
 
+// (DA and DB own heap data - they have destructors; the others are plain data)
 #[derive(Default)]
-pub struct DA(u32);
+pub struct DA(Box<u32>);
 impl Component for DA {
     type Storage = VecStorage<Self>;
 }
 #[derive(Default)]
-pub struct DB(u32);
+pub struct DB(String);
 impl Component for DB {
     type Storage = DenseVecStorage<Self>;
 }
@@ -209,6 +210,11 @@ struct Meta {
 
 impl Meta {
     fn run(&self) {
+        self.run_with(|| {})
+    }
+
+    /// `f` uses the system's data while the system is inside its logged window
+    fn run_with<F: FnOnce()>(&self, f: F) {
         let sh = &self.sh;
         let enter = sh.seq.fetch_add(1, Ordering::SeqCst);
         for &r in &self.reads {
@@ -228,6 +234,7 @@ impl Meta {
             x = x.wrapping_mul(6364136223846793005).wrapping_add(k);
         }
         std::hint::black_box(x);
+        f();
         if self.spin > 3 {
             std::thread::sleep(std::time::Duration::from_micros(150));
         }
@@ -243,13 +250,24 @@ impl Meta {
     }
 }
 
+/// queue many no-op lazy actions in a tight loop (several systems of one stage do this at once)
+fn push_lazy(lazy: &LazyUpdate, spin: u32) {
+    for _ in 0..(400 + spin as usize * 400) {
+        lazy.exec(|_| {});
+    }
+}
+
 macro_rules! shape {
     ($name:ident, $data:ty, [$($r:expr),*], [$($w:expr),*]) => {
+        shape!($name, $data, [$($r),*], [$($w),*], |_d, _m| {});
+    };
+    ($name:ident, $data:ty, [$($r:expr),*], [$($w:expr),*], |$d:ident, $m:ident| $use:expr) => {
         struct $name(Meta);
         impl<'a> System<'a> for $name {
             type SystemData = $data;
-            fn run(&mut self, _d: Self::SystemData) {
-                self.0.run();
+            fn run(&mut self, $d: Self::SystemData) {
+                let $m = &self.0;
+                $m.run_with(|| { $use; });
             }
         }
         impl $name {
@@ -262,34 +280,35 @@ macro_rules! shape {
 
 // what each shape really reads / writes: a ReadStorage<T> reads {Entities, T},
 // a WriteStorage<T> reads {Entities} and writes {T}
-shape!(S0, (ReadStorage<'a, DA>,), ["Entities", "A"], []);
+shape!(S0, (ReadStorage<'a, DA>,), ["Entities", "A"], [], |d, _m| std::hint::black_box((&d.0).join().count()));
 shape!(S1, (WriteStorage<'a, DA>,), ["Entities"], ["A"]);
-shape!(S2, (ReadStorage<'a, DA>, ReadStorage<'a, DB>), ["Entities", "A", "B"], []);
+shape!(S2, (ReadStorage<'a, DA>, ReadStorage<'a, DB>), ["Entities", "A", "B"], [], |d, _m| std::hint::black_box((&d.0, &d.1).join().count()));
 shape!(S3, (WriteStorage<'a, DA>, ReadStorage<'a, DB>), ["Entities", "B"], ["A"]);
 shape!(S4, (ReadStorage<'a, DA>, WriteStorage<'a, DB>), ["Entities", "A"], ["B"]);
 shape!(S5, (WriteStorage<'a, DB>, WriteStorage<'a, DC>), ["Entities"], ["B", "C"]);
 shape!(S6, (Entities<'a>, ReadStorage<'a, DC>), ["Entities", "C"], []);
-shape!(S7, (Entities<'a>, WriteStorage<'a, DC>, Read<'a, LazyUpdate>), ["Entities", "Lazy"], ["C"]);
+shape!(S7, (Entities<'a>, WriteStorage<'a, DC>, Read<'a, LazyUpdate>), ["Entities", "Lazy"], ["C"], |d, m| push_lazy(&d.2, m.spin));
 shape!(S8, (WriteStorage<'a, DZ>,), ["Entities"], ["Z"]);
 shape!(S9, (ReadStorage<'a, DZ>,), ["Entities", "Z"], []);
 shape!(S10, (specs::Write<'a, EntitiesRes>,), [], ["Entities"]);
 shape!(S11, (ReadStorage<'a, DB>, ReadStorage<'a, DC>, Entities<'a>), ["Entities", "B", "C"], []);
 shape!(S12, (WriteStorage<'a, DF>, ReadStorage<'a, DA>), ["Entities", "A"], ["F"]);
 shape!(S13, (ReadStorage<'a, DF>,), ["Entities", "F"], []);
-shape!(S14, (Read<'a, LazyUpdate>, WriteStorage<'a, DZ>), ["Entities", "Lazy"], ["Z"]);
+shape!(S14, (Read<'a, LazyUpdate>, WriteStorage<'a, DZ>), ["Entities", "Lazy"], ["Z"], |d, m| push_lazy(&d.0, m.spin));
 shape!(S15, (WriteStorage<'a, DA>, WriteStorage<'a, DB>, WriteStorage<'a, DC>), ["Entities"], ["A", "B", "C"]);
 
 shape!(S16, (WriteStorage<'a, DX>,), ["Entities"], ["X"]);
 shape!(S17, (WriteStorage<'a, DY>, ReadStorage<'a, DX>), ["Entities", "X"], ["Y"]);
 shape!(S18, (ReadStorage<'a, DY>,), ["Entities", "Y"], []);
+shape!(S19, (Read<'a, LazyUpdate>,), ["Lazy"], [], |d, m| push_lazy(&d.0, m.spin));
 
-const NSHAPES: usize = 19;
+const NSHAPES: usize = 20;
 
 fn rw_of(shape: usize) -> (Vec<&'static str>, Vec<&'static str>) {
     match shape {
         0 => S0::rw(), 1 => S1::rw(), 2 => S2::rw(), 3 => S3::rw(), 4 => S4::rw(), 5 => S5::rw(),
         6 => S6::rw(), 7 => S7::rw(), 8 => S8::rw(), 9 => S9::rw(), 10 => S10::rw(), 11 => S11::rw(),
-        12 => S12::rw(), 13 => S13::rw(), 14 => S14::rw(), 15 => S15::rw(), 16 => S16::rw(), 17 => S17::rw(), _ => S18::rw(),
+        12 => S12::rw(), 13 => S13::rw(), 14 => S14::rw(), 15 => S15::rw(), 16 => S16::rw(), 17 => S17::rw(), 18 => S18::rw(), _ => S19::rw(),
     }
 }
 
@@ -334,7 +353,7 @@ fn dispatch(script: &Value) -> Value {
             match shape {
                 0 => add!(S0), 1 => add!(S1), 2 => add!(S2), 3 => add!(S3), 4 => add!(S4), 5 => add!(S5),
                 6 => add!(S6), 7 => add!(S7), 8 => add!(S8), 9 => add!(S9), 10 => add!(S10), 11 => add!(S11),
-                12 => add!(S12), 13 => add!(S13), 14 => add!(S14), 15 => add!(S15), 16 => add!(S16), 17 => add!(S17), _ => add!(S18),
+                12 => add!(S12), 13 => add!(S13), 14 => add!(S14), 15 => add!(S15), 16 => add!(S16), 17 => add!(S17), 18 => add!(S18), _ => add!(S19),
             }
         }
         if script["async"].as_bool().unwrap_or(false) {
